@@ -100,19 +100,23 @@ def record_calls(ns, rng, n, tid0=0):
             df = src.value
             e.update(fn="daily_volume", span=span_h, volume=per_hour * distinct, per_hour=per_hour, hours=hours)
         elif fn == "linear":
-            n_h = rng.choice([2, 5, 25, 49])
+            n_h = rng.choice([2, 5, 7, 14, 25, 28, 49, 50, 97])
             v0 = rng.choice([0, 10, 100])
             v1 = v0 + (n_h - 1) * rng.choice([0, 1, 3])
             df = tb.linear_growth_hourly_values(n_h * u.hour, v0, v1, start, pu).value
             e.update(fn="linear", n=n_h, v0=v0, v1=v1)
-            e["idx"], e["vals"] = hours_of(df.index), ints(df["value"].values._data, n_h - 1, "linear")
+            try:
+                e["idx"], e["vals"] = hours_of(df.index), ints(df["value"].values._data, n_h - 1, "linear")
+            except MachineryError:      # with these arguments the ramp passes through whole numbers only
+                e["idx"], e["vals"] = hours_of(df.index), [int(round(float(x) * (n_h - 1))) for x in df["value"].values._data]
+                e["off_lattice_linear"] = True
         elif fn == "sinus":
-            n_h, amp, period = rng.choice([30, 50]), rng.choice([1, 5]), rng.choice([6, 12, 24])
+            n_h, amp, period = rng.choice([30, 50, 31, 53, 100]), rng.choice([1, 5]), rng.choice([6, 12, 24])
             df = tb.sinusoidal_fluct_hourly_values(n_h * u.hour, amp, period, start, pu).value
             e.update(fn="sinus", n=n_h, amplitude=amp, period=period)
             e["idx"], e["vals"] = hours_of(df.index), [int(round(float(x) * 1e6)) for x in df["value"].values._data]
         elif fn == "daily_fluct":
-            n_h, scale, mh = rng.choice([30, 72]), rng.choice([0.25, 0.5, 1]), rng.choice([4, 0, 23])
+            n_h, scale, mh = rng.choice([30, 72, 31, 97]), rng.choice([0.25, 0.5, 1]), rng.choice([4, 0, 23])
             df = tb.daily_fluct_hourly_values(n_h * u.hour, scale, mh, start, pu).value
             e.update(fn="daily_fluct", n=n_h, scale=int(scale * 1e6), min_hour=mh)
             e["idx"], e["vals"] = hours_of(df.index), [int(round(float(x) * 1e6)) for x in df["value"].values._data]
@@ -120,7 +124,7 @@ def record_calls(ns, rng, n, tid0=0):
             days, lo, hi = rng.choice([1, 3]), rng.choice([0, 1]), rng.choice([2, 10])
             df = tb.create_random_hourly_usage_df(days * u.day, lo, hi, start, pu)
             e.update(fn="random", n=24 * days + 1, lo=lo, hi=hi)
-        e["off_lattice"] = False
+        e["off_lattice"] = bool(e.pop("off_lattice_linear", False))
         if "idx" not in e:
             try:
                 e["idx"], e["vals"] = hours_of(df.index), ints(df["value"].values._data, 1, fn)
